@@ -156,6 +156,78 @@ func C20(p *core.Program, r *core.Report) {
 			r.Add("F3", g.name+" is read only by the element visitor", "", ok, fmt.Sprintf("readers: %v", names))
 		}
 	}
+	// ---- F5: "otherwise the distiller ignores those markers altogether": a class/id value that
+	// the unlikely pattern matches must not steer any other decision of content extraction.
+	// Every other test of an element's class/id in the content packages (a private regexp applied
+	// to it, or a comparison with a constant) is compared with the pattern: a regexp must match
+	// none of the pattern's alternatives, a constant must not be matched by the pattern.
+	{
+		pat := strings.TrimSuffix(strings.TrimPrefix(rxUnlikely, "rx‹"), "›")
+		words := strings.Split(strings.TrimPrefix(pat, "(?i)"), "|")
+		unlikelyRe, errU := regexp.Compile(pat)
+		if errU != nil {
+			r.Undecided("F5", "the unlikely pattern", errU.Error())
+		} else {
+			cn := core.NewCanon(p)
+			reClassID := regexp.MustCompile(`dom\.(ClassName|ID)\(|dom\.GetAttribute\([^()]*,"(class|id)"\)`)
+			seenF5 := map[string]bool{}
+			nTests := 0
+			for _, fn := range p.ModFunctions(false) {
+				pp := core.FnPkgPath(fn)
+				if !(strings.Contains(pp, "/internal/converter") || strings.Contains(pp, "/internal/webdoc") || strings.Contains(pp, "/internal/filter") || strings.Contains(pp, "/internal/extractor") || strings.Contains(pp, "/internal/domutil")) {
+					continue
+				}
+				for _, in := range instrsOf(fn) {
+					switch x := in.(type) {
+					case *ssa.Call:
+						// (*regexp.Regexp).MatchString / FindString... on a private regexp with a class/id subject
+						callee := x.Call.StaticCallee()
+						if callee == nil || !strings.HasPrefix(callee.String(), "(*regexp.Regexp).") || len(x.Call.Args) < 2 {
+							continue
+						}
+						rx := cn.Of(x.Call.Args[0])
+						subj := cn.Of(x.Call.Args[1])
+						if !strings.HasPrefix(rx, "rx‹") || !reClassID.MatchString(subj) || rx == rxUnlikely || rx == rxOkMaybe {
+							continue
+						}
+						nTests++
+						other, err := regexp.Compile(strings.TrimSuffix(strings.TrimPrefix(rx, "rx‹"), "›"))
+						if err != nil {
+							continue
+						}
+						var hits []string
+						for _, w := range words {
+							if other.MatchString(w) {
+								hits = append(hits, w)
+							}
+						}
+						key := "class/id test with " + rx + " in package " + pp[strings.LastIndex(pp, "/")+1:]
+						if !seenF5[key] {
+							seenF5[key] = true
+							r.Add("F5", key, p.Pos(x.Pos()), len(hits) == 0, fmt.Sprintf("marker words of the unlikely pattern that this test reacts to as well: %v", hits))
+						}
+					case *ssa.BinOp:
+						if x.Op.String() != "==" && x.Op.String() != "!=" {
+							continue
+						}
+						for _, pair := range [][2]ssa.Value{{x.X, x.Y}, {x.Y, x.X}} {
+							s, isC := core.ConstString(pair[1])
+							if !isC || s == "" || !reClassID.MatchString(cn.Of(pair[0])) {
+								continue
+							}
+							nTests++
+							key := fmt.Sprintf("class/id compared with %q in package %s", s, pp[strings.LastIndex(pp, "/")+1:])
+							if !seenF5[key] {
+								seenF5[key] = true
+								r.Add("F5", key, p.Pos(x.Pos()), !unlikelyRe.MatchString(s), "a value the unlikely pattern matches is also tested here")
+							}
+						}
+					}
+				}
+			}
+			r.Add("F5", "other class/id tests of the content packages examined", "", nTests >= 3, fmt.Sprintf("%d tests", nTests))
+		}
+	}
 	// ---- F4: "below a table" means below a table at any depth: the ancestor test climbs until
 	// there is no parent left and answers true only for a matching ancestor
 	if ha := mustInl(p, r, "F4", domutilPkg+".HasAncestor"); ha != nil {
